@@ -24,7 +24,7 @@ from .c01 import fmt_tag
 ID = "C16"
 PROBES = ['probe_hash_sensitive_value', 'probe_reordered_construction', 'probe_equal_but_distinguishable_twins']  # reach probes: counters that must be non-zero in a run (a zero is printed and recorded)
 LEVEL = "exploration"
-BUDGET = {"quick": 140, "thorough": 6000}
+BUDGET = {"quick": 140, "thorough": 4000}
 WALL = {"quick": 300, "thorough": 3400}
 JOBS_CAP = 8
 MIN_BUDGET = 30
